@@ -210,7 +210,7 @@ def icp_grid(rng, tier):
             for th in (-0.05, 0.0, 0.05):
                 pts.append((tx, ty, th))
     pts += [(0.1, 0.2, 0.05)]                    # the displacement of the repository's own test
-    nrand = 400 if tier == "thorough" else 12
+    nrand = 2000 if tier == "thorough" else 12
     if tier == "thorough":
         g5 = [-0.2, -0.1, 0.0, 0.1, 0.2]
         t5 = [-0.05, -0.025, 0.0, 0.025, 0.05]
